@@ -203,6 +203,10 @@ EFNa(S)       == EFR({"na"}, S, <<"same">>)
 EFPanic(S)    == EFR({"panic"}, S, <<"same">>)           \* a panic never changes anything
 EFKeep(S)     == EFR({"ret"}, S, <<"same">>)
 
+\* the outcome logged with an event (trace validation); "ret" when the
+\* operation record comes from a bounded model
+EFOutcome(op) == IF "out" \in DOMAIN op THEN op.out ELSE "ret"
+
 \* a push is accepted iff there is room, the value is within the bound and
 \* not smaller than the last accepted one
 PushOK(S, X, x) == Len(X) < S.n /\ WLeq(x, S.u) /\ WLeq(EFLast(X), x)
@@ -279,11 +283,17 @@ Eff(op, S, X) ==
            IF op.kind \notin AllKinds THEN EFNa(S)
            ELSE IF S.form = "builder" /\ Len(X) = S.n
            THEN EFR({"ret"}, EFState("ef", S.n, S.u, op.kind, <<>>, FALSE), <<"same">>)
+           ELSE IF S.form = "builder"
+           \* values are missing: the call must not produce a structure that
+           \* claims n values.  It panics (and the builder is gone), or it
+           \* returns a structure holding exactly the values accepted so far.
+           THEN IF EFOutcome(op) = "panic" THEN EFR({"panic"}, EFNone, <<"val", <<>>>>)
+                ELSE EFR({"panic", "ret"}, EFState("ef", Len(X), S.u, op.kind, <<>>, FALSE), <<"same">>)
            ELSE IF S.form = "cbuilder" /\ S.full
            THEN EFR({"ret"}, EFState("ef", S.n, S.u, op.kind, <<>>, FALSE), <<"same">>)
            ELSE IF S.form = "cbuilder" /\ CsComplete(S) /\ EFMonotone(CsSeq(S))
            THEN EFR({"ret"}, EFState("ef", S.n, S.u, op.kind, <<>>, FALSE), <<"val", CsSeq(S)>>)
-           ELSE EFNa(S)          \* fewer than n values: outside the property's domain
+           ELSE EFNa(S)          \* concurrent builder with missing values: outside set's contract
       [] o = "from" ->
            IF op.kind \notin AllKinds THEN EFNa(S)
            ELSE IF EFMonotone(op.xs)
